@@ -52,6 +52,9 @@ struct Ctx {
   double elapsed() const {
     return std::chrono::duration<double>(std::chrono::steady_clock::now() - t0).count();
   }
+  long long own_cases = 0;
+  // call once per executed case: checks the deadline every `every` own cases (independent of sharding)
+  bool tick(long long every = 64) { return ((++own_cases) % every) == 0 && out_of_time(); }
   bool out_of_time() {
     if (elapsed() > deadline_s) { capped = true; exhaustive = false; return true; }
     return false;
